@@ -63,10 +63,11 @@ const (
 	sRoundRobin
 	sSerial
 	sBoundary
+	sRare // preempt where the code is rare: at yield sites few operations of the pool execute
 	nStrats
 )
 
-var stratNames = []string{"random-walk", "pct", "round-robin", "serial-permutation", "op-boundary"}
+var stratNames = []string{"random-walk", "pct", "round-robin", "serial-permutation", "op-boundary", "rare-site"}
 
 // ---- failures ----------------------------------------------------------------------------------------
 
@@ -146,6 +147,7 @@ type sim struct {
 	exited         sync.WaitGroup
 	foreign        int64
 	countOnly      bool
+	countSites     bool
 	trace          *[]uint32 // countOnly: the sequence of yield sites
 	wantText       bool
 	infeasible     int
@@ -175,6 +177,10 @@ func (s *sim) counted(site uint32) bool {
 func (s *sim) Yield(site uint32) {
 	if s.countOnly {
 		s.step++
+		if s.countSites && siteEpoch[site] != soloEpoch {
+			siteEpoch[site] = soloEpoch
+			siteOpCount[site]++
+		}
 		if s.trace != nil {
 			*s.trace = append(*s.trace, site)
 		}
@@ -311,6 +317,12 @@ func (s *sim) decide(t *task, site uint32) *task {
 		return nil
 	case sBoundary:
 		if site != siteBoundary || s.rng.intn(2) != 0 {
+			return nil
+		}
+	case sRare:
+		// cfg.P is the rarity threshold (number of reference operations that reach the site)
+		if site == siteBoundary || s.refs == nil || int(site) >= len(s.refs.siteOps) ||
+			s.refs.siteOps[site] > uint32(s.cfg.P) || s.rng.intn(2) != 0 {
 			return nil
 		}
 	}
